@@ -254,8 +254,15 @@ def judge(prop, tier):
         "abnormal_terminations": stats["abnormal"],
         "binding_selftest": selftest,
         "exhaustive": True,
-        "machine_conformance": "see spec/ParserMachine.tla (MC_P2M) — reported separately in evidence when run",
     }
+    if prop in ("C01", "C03"):
+        # machine specification run on the same points: drift report + model-level invariants
+        mach, _ = machine_stage(sel, cap)
+        rep.coverage["machine_conformance"] = mach
+        rep.coverage["states"] += mach["states"]
+        rep.coverage["transitions"] += mach["transitions"]
+        if mach["selftest_rejected"] < mach["grammars"]:
+            raise ToolError("machine binding self-test failed: a corrupted record was not reported as drift")
     rep.assumptions = [
         "token vectors are injected through ParserCallbacks::Context; the lexer is not part of these properties",
         "predicate/assertion outcomes are scripted by call order",
@@ -365,3 +372,112 @@ def replay(prop, path):
         print(json.dumps(o)[:4000])
     print("abnormal:", ab)
     return 0
+
+
+# ----------------------------------------------------------------------------------------------
+# machine conformance (MC_P2M): the machine spec is run on the recorded points
+# ----------------------------------------------------------------------------------------------
+
+def machine_grammar(b):
+    """G for ParserMachine.tla: structure + the analysis results the emitted code is built from."""
+    e = b.export
+    g = G.export_to_tlc(e)
+    nodes = []
+    for n in e["nodes"]:
+        nodes.append({
+            "k": n["k"], "c": n["c"], "t": n["t"], "r": n["r"], "num": n["num"], "name": n["name"],
+            "first": n["first"] or [], "follow": n["follow"] or [], "predict": n["predict"] or [],
+            "recovery": n["recovery"] or [], "el": n["elision"] or "none", "inchoice": n["inchoice"],
+        })
+    rules = []
+    for r in e["rules"]:
+        if r["elided"]:
+            el = "uncond"
+        elif r["body"]:
+            el = e["nodes"][r["body"] - 1]["elision"] or "none"
+        else:
+            el = "none"
+        rules.append({
+            "name": r["name"], "elided": r["elided"], "body": r["body"], "used": r["used"],
+            "inchoice": r["inchoice"], "hasrename": r["has_rename"], "hascreation": r["has_creation"],
+            "el": el,
+            "rec": [{"kind": x["kind"], "node": x["node"], "left": x["left"], "right": x["right"], "bp": x["bp"]}
+                    for x in r["recursive"]],
+        })
+    g["nodes"] = nodes
+    g["rules"] = rules
+    with open(os.path.join(os.path.dirname(b.res["bin"]), "out", "generated.rs")) as fh:
+        src = fh.read()
+    g["delkinds"] = [m[0][len("delete_node_"):] for m in p2gen.trait_methods(src) if m[0].startswith("delete_node_")]
+    return g
+
+
+def machine_record(o):
+    evs = []
+    for x in o.get("events", []):
+        k = x["e"]
+        if k == "diag":
+            evs.append({"e": "diag", "s": "", "n": x["lo"], "b": x["muted"]})
+        elif k == "create":
+            evs.append({"e": "create", "s": x["kind"], "n": x["ref"], "b": False})
+        elif k == "delete":
+            evs.append({"e": "delete", "s": x["kind"], "n": x["ref"], "b": False})
+        elif k == "pred":
+            evs.append({"e": "pred", "s": x["id"], "n": x["pos"], "b": x["ret"]})
+        elif k == "act":
+            evs.append({"e": "act", "s": x["id"], "n": x["pos"], "b": False})
+        elif k == "assert":
+            evs.append({"e": "assert", "s": x["id"], "n": x["pos"], "b": x["ret"]})
+    return {"en": o["en"], "w": o["w"], "s": o["s"], "panic": bool(o["panic"]),
+            "flat": o["flat"], "dl": [d[0] for d in o["diags"]], "evs": evs}
+
+
+def machine_conformance(b, outs, tag="m"):
+    wd = cache_dir("p2", b.name)
+    gfile = os.path.join(wd, "GM.ndjson")
+    write_ndjson(gfile, [machine_grammar(b)])
+    rfile = os.path.join(wd, "RM-%s.ndjson" % tag)
+    recs = [machine_record(o) for o in outs]
+    # binding self-test: one corrupted copy (last record) must be reported as drift
+    import copy
+    for r in recs:
+        if not r["panic"] and r["flat"]:
+            c = copy.deepcopy(r)
+            c["dl"] = c["dl"] + [len(c["w"])]
+            recs.append(c)
+            break
+    write_ndjson(rfile, recs)
+    res = run_tlc("MC_P2M", "MC_P2M.cfg", env={"GFILE": gfile, "RFILE": rfile}, workers=2,
+                  timeout=1500, xmx="3g", job="p2m-%s-%s" % (tag, b.name))
+    return res
+
+
+def machine_stage(sel, cap):
+    """MC_P2M on every selected grammar; returns evidence dict (drift is never an alarm)."""
+    def one(b):
+        outs, meta = outcomes_for(b, cap, False)
+        return b, outs, machine_conformance(b, outs)
+    out = {"grammars": 0, "behaviours": 0, "states": 0, "transitions": 0, "drift": {}, "inv": {},
+           "hard_invariant": {}, "selftest_rejected": 0, "errors": {}}
+    per = {}
+    for b, outs, res in parallel(one, sel):
+        n = len(outs)
+        out["grammars"] += 1
+        out["behaviours"] += n
+        out["states"] += res.distinct
+        out["transitions"] += res.generated
+        if res.error:
+            out["errors"][b.name] = res.error[:200]
+        if res.violated:
+            out["hard_invariant"][b.name] = res.violated
+        dr = [d for d in res.payload("DRIFT") if d]
+        if any(d["i"] == n + 1 for d in dr):
+            out["selftest_rejected"] += 1
+        dr = [d for d in dr if d["i"] <= n]
+        if dr:
+            out["drift"][b.name] = {"count": len(dr), "first": {"what": dr[0]["what"], "input": outs[dr[0]["i"] - 1]["w"]}}
+        iv = [d for d in res.payload("INV") if d and d["i"] <= n]
+        if iv:
+            out["inv"][b.name] = {"count": len(iv), "what": iv[0]["what"], "input": outs[iv[0]["i"] - 1]["w"]}
+        per[b.name] = (outs, res, dr, iv)
+    return out, per
